@@ -316,12 +316,16 @@ IndepCharges(tabs, s, i, acc) ==
     IF s > Len(tabs) THEN acc
     ELSE IF i > Len(tabs[s].qnames) THEN IndepCharges(tabs, s + 1, 1, acc)
     ELSE IndepCharges(tabs, s, i + 1, Append(acc, [name |-> tabs[s].qnames[i], parts |-> <<<<s, i>>>>]))
+\* "diff": one explicit new charge  q = (first charge of site 0) - (first charge of site 1), i.e. the list
+\* new_charges = [[(1, 0, 0), (-1, 1, 0)]]  (like 2*Sz = N_up - N_down of spin_half_species); a part is <<site, index, factor>>
 NewCharges(tabs, pol) == CASE pol = "same" -> SameCharges(tabs, 1, 1, <<>>)
+                           [] pol = "diff" -> <<[name |-> tabs[1].qnames[1], parts |-> <<<<1, 1, 1>>, <<2, 1, -1>>>>]>>
                            [] pol = "independent" -> IndepCharges(tabs, 1, 1, <<>>)
                            [] OTHER -> <<>>
 SumParts(parts, s, q) ==      \* contribution of site s with old charge vector q
     LET mine == {k \in 1..Len(parts) : parts[k][1] = s} IN
-    IF mine = {} THEN 0 ELSE q[parts[CHOOSE k \in mine : TRUE][2]]      \* a site contributes at most once per new charge here
+    IF mine = {} THEN 0 ELSE LET pt == parts[CHOOSE k \in mine : TRUE] IN      \* a site contributes at most once per new charge here
+                             (IF Len(pt) = 3 THEN pt[3] ELSE 1) * q[pt[2]]
 SetCommon(tabs, pol) ==
     LET nc == NewCharges(tabs, pol)
         qmod == [k \in 1..Len(nc) |-> tabs[nc[k].parts[1][1]].qmod[nc[k].parts[1][2]]]
@@ -415,7 +419,9 @@ Pick == /\ site = NoSite /\ grp = NoGrp /\ Len(members) < MaxGroup
         /\ last' = [op |-> "pick"] /\ UNCHANGED <<site, grp>>
 Pols == {"same", "independent", "drop"}
 DoSetCommon == /\ Len(members) >= 2 /\ grp = NoGrp
-               /\ \E pol \in Pols : grp' = SetCommon([s \in 1..Len(members) |-> Cat[members[s]]], pol)
+               /\ \E pol \in Pols \cup {"diff"} :
+                     /\ pol = "diff" => (Len(members) = 2 /\ \A s \in 1..2 : Len(Cat[members[s]].qnames) >= 1)
+                     /\ grp' = SetCommon([s \in 1..Len(members) |-> Cat[members[s]]], pol)
                /\ last' = [op |-> "set_common_charges"] /\ UNCHANGED <<site, members>>
 DoGroup == /\ Len(members) >= 2 /\ grp = NoGrp
            /\ \E pol \in Pols : grp' = GroupTab(MemberViews, pol)
